@@ -1,7 +1,11 @@
 package props
 
 import (
+	"bytes"
+	"context"
 	"fmt"
+	"github.com/shutter-network/rolling-shutter/rolling-shutter/cmd/chain"
+	tmcfg "github.com/tendermint/tendermint/config"
 	"os"
 	"os/exec"
 	"path/filepath"
@@ -247,4 +251,96 @@ func TestC13_CrashDuringSave(t *testing.T) {
 			rec.Case(fmt.Sprintf("crashsave|%d|L=%d/%d", hash64(descr), l, size), l > 0 && l < size, "truncation")
 		}
 	}
+}
+
+// TestC13_NodeStartAfterCrashDuringSave: what a crashed save leaves behind (the intact state file and
+// a partly written temporary file next to it) is handed to the node's real start-up code
+// (cmd/chain appService.Start). Whatever else the start-up does or fails to do without a complete
+// tendermint home directory, afterwards the state file must still be the one that was there and load.
+func TestC13_NodeStartAfterCrashDuringSave(t *testing.T) {
+	rec := recorder("C13")
+	rec.AddRule("(c) node start-up after a crash during save: a generated state X is saved properly as <home>/data/shutter.gob; next to it lies what a crash leaves of the following save - a temporary file holding a prefix (length 0, 1, generated, all but one byte, or complete) of the encoding of a later state Y, under the temporary names the application uses; the real start-up (cmd/chain appService.Start via hook) runs on that directory; afterwards shutter.gob must load and equal X (for a complete temporary file: X or Y)")
+	old := app.PersistMinDuration
+	app.PersistMinDuration = 1000 * time.Hour
+	defer func() { app.PersistMinDuration = old }()
+	runRapid(t, N(25, 2000), func(rt *rapid.T) {
+		fail := func(sig, f string, a ...any) { fatalf(rt, sig, f, a...) }
+		g, calls, c := recordHistory(rt, 6, 40, fail)
+		if c.Height < 2 {
+			rt.Skip("short")
+		}
+		home := t.TempDir()
+		data := filepath.Join(home, "data")
+		if err := os.MkdirAll(data, 0o755); err != nil {
+			rt.Fatalf("mkdir: %v", err)
+		}
+		statePath := filepath.Join(data, "shutter.gob")
+		cut := splitAtHeight(calls, c.Height/2)
+		x := newApp(g)
+		runBlocks(x, calls[:cut], fail)
+		x.Gobpath = statePath
+		if err := x.PersistToDisk(); err != nil {
+			fail("persist-error", "PersistToDisk: %v", err)
+		}
+		before, err := os.ReadFile(statePath)
+		if err != nil {
+			rt.Fatalf("read: %v", err)
+		}
+		// the later state, encoded by the application itself
+		y := newApp(g)
+		runBlocks(y, calls, fail)
+		y.Gobpath = filepath.Join(home, "later.gob")
+		if err := y.PersistToDisk(); err != nil {
+			fail("persist-error", "PersistToDisk: %v", err)
+		}
+		later, _ := os.ReadFile(y.Gobpath)
+		os.Remove(y.Gobpath)
+		var l int
+		switch rapid.IntRange(0, 5).Draw(rt, "prefixKind") {
+		case 0:
+			l = 0
+		case 1:
+			l = 1
+		case 2:
+			l = len(later) - 1
+		case 3:
+			l = len(later)
+		default:
+			l = rapid.IntRange(0, len(later)).Draw(rt, "prefixLen")
+		}
+		tmpName := rapid.SampledFrom([]string{"shutter.gob.tmp", "shutter.gob.tmp", "shutter.gob.partial", "shutter.gob.new"}).Draw(rt, "tmpName")
+		if err := os.WriteFile(filepath.Join(data, tmpName), later[:l], 0o644); err != nil {
+			rt.Fatalf("write: %v", err)
+		}
+		conf := tmcfg.DefaultConfig()
+		conf.SetRoot(home)
+		ctx, cancel := context.WithTimeout(context.Background(), 5*time.Second)
+		var startErr error
+		var panicked any
+		func() {
+			defer func() { panicked = recover() }()
+			startErr = chain.VerifStartApp(ctx, nil, conf)
+		}()
+		cancel()
+		_ = startErr // without node keys and genesis the start-up cannot get far; only the state file is judged
+		if panicked != nil {
+			fail("node-start-panic", "node start-up panicked on a directory left by a crashed save: %v", panicked)
+		}
+		after, err := os.ReadFile(statePath)
+		if err != nil {
+			fail("state-file-lost", "after the node's start-up the state file cannot be read: %v (temporary file %s with %d of %d bytes)", err, tmpName, l, len(later))
+		}
+		loaded, lerr := app.LoadShutterAppFromFile(statePath)
+		if lerr != nil {
+			fail("state-file-unloadable-after-start", "after the node's start-up the state file does not load any more: %v (temporary file %s with %d of %d bytes; the file had %d bytes before and has %d now)", lerr, tmpName, l, len(later), len(before), len(after))
+		}
+		if !bytes.Equal(after, before) {
+			if l == len(later) && appDiff(&loaded, y) == "" {
+				rec.Label("complete-temporary-file-promoted")
+			} else {
+				fail("state-file-changed-by-start", "the node's start-up replaced the saved state by the partly written one (temporary file %s with %d of %d bytes)", tmpName, l, len(later))
+			}
+		}
+		rec.Case(fmt.Sprintf("nodestart|%s|%s|%d/%d", c.DescString(), tmpName, l, len(later)), l > 0 && l < len(later), "node-start-after-crashed-save")
+	})
 }
